@@ -30,7 +30,8 @@ def fixed_probes(d, e):
 
 
 def run(chk):
-    res = vlib.prove(chk, C01.UNITS, C01.MODELS, 'C09', C01.PROOFS)
+    res = vlib.prove(chk, C01.UNITS + ['Clir', 'JitFrame'], C01.MODELS + ['theories/ClirSem.vo', 'gen/Clir.vo', 'theories/X86Stk.vo', 'gen/JitFrame.vo'], 'C09',
+                     C01.PROOFS + ['theories/ClirProofs.v', 'theories/JitFrameProofs.v'])
     found = False
     if res['model_ok']:
         binary = vlib.harness_build('debug')
